@@ -472,3 +472,11 @@ impl<'a> VacantEntry<'a> {
         Key { index, stream_id }
     }
 }
+
+#[cfg(feature = "h2_verif")]
+impl Store {
+    /// Number of occupied slab slots (verification statistics).
+    pub(super) fn verif_slab_len(&self) -> usize {
+        self.slab.len()
+    }
+}
